@@ -21,5 +21,19 @@ PROPS = {
     ),
 }
 
+PROPS["C17"] = dict(
+    bin="plain", level="exploration", shards={"quick": 16, "thorough": 16},
+    timeout={"quick": 600, "thorough": 3000},
+    rule=("route tables built by random save/update/delete histories (non-canonical spellings included) over 10 nested/overlapping "
+          "patterns; the first 256 table indices enumerate every subset of <=4 of the first 8 patterns; every table is queried with "
+          "~900 request paths (<=3 segments over {a,b,c,ab,A}, with/without trailing '/', non-canonical spellings), each lookup "
+          "repeated 16x (quick) / 64x (thorough) to expose map-iteration-order dependence; a case is distinct by its history string"),
+    level_text=("Differential reference-model monitor over enumerated/small random tables: route.Match is a pure function of "
+                "(table, path), so bounded enumeration with repetition reaches every branch incl. tie-breaks"),
+    level_note="trusted: the 30-line reference resolver; the end-to-end part (URL asked of the camera, publish path) is exercised in C20",
+    technique="reference-model monitor (differential oracle) over enumerated route tables and paths, repeated lookups",
+    assumptions=["route URLs are non-empty", "reference resolver encodes the property statement"],
+)
+
 # properties not claimed, with the reason (kept current)
 NOT_APPLICABLE = {}
